@@ -45,7 +45,7 @@ CONNECT_ANY = ["O", "CCN", "C[Si]", "CC[Si]CC", "CNC"]
 
 
 def plan(tier):
-    return 200 if tier == "quick" else 4000
+    return 200 if tier == "quick" else 2000
 
 
 VARIANTS = ["clean"] * 8 + ["end_start", "end_start_open", "sym_unit", "zero_width", "broad_gauss", "ambiguous_terminal", "same_atom_unit",
